@@ -40,6 +40,15 @@ const nMsgs = 6
 
 func msgOf(i int) []byte { return []byte(fmt.Sprintf("message-%d", ((i%nMsgs)+nMsgs)%nMsgs)) }
 
+// batchShaped returns a message that looks like the serialisation of a one-entry batch {id: msgOf(i)} (id, length, bytes):
+// plain verification and batch verification must not share remembered verdicts even for such look-alike inputs.
+func batchShaped(id hotstuff.ID, i int) []byte {
+	m := msgOf(i)
+	out := append([]byte(nil), id.ToBytes()...)
+	out = append(out, hotstuff.View(len(m)).ToBytes()...)
+	return append(out, m...)
+}
+
 type poolSig struct {
 	sig     hotstuff.QuorumSignature
 	signers []int       // labels
@@ -210,6 +219,48 @@ func prop(c c11Case) common.Result {
 				labels[k] = 1 + ((l%(c.N+1))+c.N+1)%(c.N+1)
 			}
 			pool = append(pool, poolSig{relabel(c.Scheme, p.sig, labels), labels, p.msgs})
+		case "signshaped":
+			// a replica signs a message that is shaped like a one-entry batch of its own
+			who := 1 + ((o.A%c.N)+c.N)%c.N
+			s, err := w.Members[who-1].Base.Sign(batchShaped(hotstuff.ID(who), o.B))
+			if err != nil {
+				return common.Fail("harness", "sign: %v", err)
+			}
+			pool = append(pool, poolSig{s, []int{who}, map[int]int{who: o.B}})
+		case "nilsig":
+			// a decoded message without a signature field hands the authority a nil signature
+			m := msgOf(o.B)
+			var ok1, p1, ok2, p2 bool
+			var m1, m2 string
+			if o.A%2 == 0 {
+				ok1, p1, m1 = call(func() error { return cached.Verify(nil, m) })
+				ok2, p2, m2 = call(func() error { return plain.Verify(nil, m) })
+			} else {
+				b := map[hotstuff.ID][]byte{hotstuff.ID(1 + o.C%c.N): m}
+				ok1, p1, m1 = call(func() error { return cached.BatchVerify(nil, b) })
+				ok2, p2, m2 = call(func() error { return plain.BatchVerify(nil, b) })
+			}
+			if ok1 != ok2 || p1 != p2 {
+				return common.Fail("nil-signature-differs", "verification of an absent (nil) signature, batch=%v: cached accepted=%v panicked=%v (%s), uncached accepted=%v panicked=%v (%s)\n%s",
+					o.A%2 == 1, ok1, p1, m1, ok2, p2, m2, step)
+			}
+		case "verifyshaped":
+			if len(pool) == 0 {
+				continue
+			}
+			p := pick(o.A)
+			who := 1
+			if len(p.signers) > 0 {
+				who = p.signers[0]
+			}
+			m := batchShaped(hotstuff.ID(who), o.B)
+			ok1, p1, m1 := call(func() error { return cached.Verify(p.sig, m) })
+			ok2, p2, m2 := call(func() error { return plain.Verify(p.sig, m) })
+			note(p.sig, ctxKey("vs", who, o.B%nMsgs, labelsOf(p.sig)), ok2)
+			if ok1 != ok2 || p1 != p2 {
+				return common.Fail("verify-batchshaped-"+fpSide(ok1), "Verify(sig labelled %v really signed per signer %v, message = serialisation of the batch {%d: message-%d}): cached accepted=%v (%s), uncached accepted=%v (%s)\n%s",
+					labelsOf(p.sig), p.msgs, who, o.B%nMsgs, ok1, m1, ok2, m2, step)
+			}
 		case "verify":
 			if len(pool) == 0 {
 				continue
@@ -378,7 +429,7 @@ func genCase(rt *rapid.T) c11Case {
 	}
 	c.Cap = rapid.SampledFrom([]int{1, 2, 3, 4, 5, 6, 7, 8, 100}).Draw(rt, "cap")
 	c.Verifier = rapid.IntRange(1, c.N).Draw(rt, "verifier")
-	kinds := []string{"sign", "sign", "signbatch", "combine", "relabel", "verify", "verify", "verify", "batch", "batch", "mkqc", "mktc", "mkagg", "vcert", "vcert", "vcert"}
+	kinds := []string{"sign", "sign", "signbatch", "combine", "relabel", "verify", "verify", "verify", "batch", "batch", "mkqc", "mktc", "mkagg", "vcert", "vcert", "vcert", "signshaped", "verifyshaped", "verifyshaped", "nilsig"}
 	maxOps := 60
 	if c.Scheme == "bls12" {
 		maxOps = 25
